@@ -132,11 +132,13 @@ def check_referrer(path, ev, comp_map, case, tags, feats=FEATS, full=True,
                 exp_arr = src[comp_map] if override is None or \
                     feat not in override else src
                 objs = [(feat, ds[feat], exp_arr)]
+            # the patterns once in order (single indices first, on an
+            # object nobody has read yet) and the single indices and a
+            # slice again after the whole-array accesses have been served
+            again = [q for q in pats if q[0] == "int"] + [
+                q for q in pats if q[0] == "slice"][:3]
             for name, obj, exp_arr in objs:
-                for pat in pats:
-                    if pat[0] == "asarray" and feat in ("image", "mask",
-                                                        "trace"):
-                        pass
+                for pi, pat in enumerate(list(pats) + again):
                     try:
                         got = _apply(obj, pat)
                         exp = _expected(exp_arr, pat)
@@ -146,7 +148,8 @@ def check_referrer(path, ev, comp_map, case, tags, feats=FEATS, full=True,
                             "exception",
                             f"{name}[{pat}] on {type(obj).__name__}: "
                             f"{type(e).__name__}: {e}", feat=feat,
-                            exc=type(e).__name__, pat=pat[0])
+                            exc=type(e).__name__, pat=pat[0],
+                            second_pass=pi >= len(pats))
                         break
                     if not ok:
                         bad(FB + ":BasinProxyFeature.__getitem__",
@@ -155,7 +158,7 @@ def check_referrer(path, ev, comp_map, case, tags, feats=FEATS, full=True,
                             f"{np.asarray(got).tolist()!r:.200} expected "
                             f"{np.asarray(exp).tolist()!r:.200} (composed "
                             f"map {comp_map.tolist()})", feat=feat,
-                            pat=pat[0])
+                            pat=pat[0], second_pass=pi >= len(pats))
                         break
                 if feat not in ("trace",) and hasattr(obj, "__len__"):
                     try:
